@@ -21,11 +21,12 @@ CHECK = {
            '4 x 4 enumerated orders (ascending, descending, alternating ends, stride), cheap root-path height bound + len/mem/get at '
            'every step, full audit and full iteration comparison at every step for N <= 300 and at every 64th step otherwise'),
   'bounds': {
-    'quick': ('Int keys: 11-key universe, 1 value, to fixpoint (gcc); 7 keys x 2 values; 8 keys under ASan+UBSan; String keys 8 (1 value) and 6 (2 values), '
-              '6 under ASan; Probe keys+values 8 (1 value) and 6 (2 values) with the ledger; ladders N in {1,2,3,7,16,33,100,300,1000,4000,10000} Int, '
-              '{100,1000,4000} String, {100,1000} under ASan'),
-    'thorough': ('Int keys: 14-key universe, 1 value, to fixpoint (8.8e5 concrete trees); 9 keys x 2 values; 11 keys under ASan+UBSan; String keys 11 (1 value), 8 (2 values); '
-                 'Probe keys+values 11 (1 value), 8 (2 values); ladders to 10000 keys Int and String, 4000 under ASan'),
+    'quick': ('to fixpoint: Int keys 11-key universe x 1 value (3.99e4 concrete trees) and 7 keys x 2 values (gcc), 9 keys and 5x2 under ASan+UBSan; '
+              'String keys 10 and 6x2, 8 under ASan, 4x2 with the stored-key alias operation under ASan; Probe keys+values with the ledger 10 and 6x2, 8 and 5x2 under ASan; '
+              'ladders N in {1,2,3,7,16,33,100,300,1000,4000,10000} Int, {100,1000,4000} String, {1,2,3,16,100,1000} under ASan, 16 order pairs each'),
+    'thorough': ('to fixpoint: Int keys 14-key universe x 1 value (8.9e5 concrete trees, deepest shortest history 26) and 9 keys x 2 values (4.2e5), 12 keys and 8x2 under ASan+UBSan; '
+                 'String keys 13 and 9x2, 11 under ASan, 6x2 with the alias operation under ASan; Probe keys+values 13 and 9x2, 11 and 6x2 under ASan; '
+                 'ladders to 10000 keys Int and String (21 / 6 sizes), to 4000 Int and 1000 String under ASan'),
   },
   'assumptions': [
     'keys outside the universe are represented by it: the tree depends on keys only through cmp, and Int/String/Probe keys 0..N-1 give every order type of N keys',
@@ -55,15 +56,15 @@ CHECK = {
       T('int14', 'base', 'keys=int', 'nkeys=14', 'nvals=1'),
       T('int9x2', 'base', 'keys=int', 'nkeys=9', 'nvals=2', 'alias=1'),
       T('int12-asan', 'asan', 'keys=int', 'nkeys=12', 'nvals=1'),
-      T('int7x2-asan', 'asan', 'keys=int', 'nkeys=7', 'nvals=2', 'alias=1'),
-      T('str12', 'base', 'keys=str', 'nkeys=12', 'nvals=1'),
-      T('str8x2', 'base', 'keys=str', 'nkeys=8', 'nvals=2', 'alias=1'),
+      T('int8x2-asan', 'asan', 'keys=int', 'nkeys=8', 'nvals=2', 'alias=1'),
+      T('str13', 'base', 'keys=str', 'nkeys=13', 'nvals=1'),
+      T('str9x2', 'base', 'keys=str', 'nkeys=9', 'nvals=2', 'alias=1'),
       T('str6x2-alias-asan', 'asan', 'keys=str', 'nkeys=6', 'nvals=2', 'alias=1'),
-      T('str10-asan', 'asan', 'keys=str', 'nkeys=10', 'nvals=1'),
-      T('probe12', 'base', 'keys=probe', 'vals=probe', 'prop=C05', 'nkeys=12', 'nvals=1'),
-      T('probe8x2', 'base', 'keys=probe', 'vals=probe', 'prop=C05', 'nkeys=8', 'nvals=2', 'alias=1'),
+      T('str11-asan', 'asan', 'keys=str', 'nkeys=11', 'nvals=1'),
+      T('probe13', 'base', 'keys=probe', 'vals=probe', 'prop=C05', 'nkeys=13', 'nvals=1'),
+      T('probe9x2', 'base', 'keys=probe', 'vals=probe', 'prop=C05', 'nkeys=9', 'nvals=2', 'alias=1'),
       T('probe6x2-asan', 'asan', 'keys=probe', 'vals=probe', 'prop=C05', 'nkeys=6', 'nvals=2', 'alias=1'),
-      T('probe10-asan', 'asan', 'keys=probe', 'vals=probe', 'prop=C05', 'nkeys=10', 'nvals=1'),
+      T('probe11-asan', 'asan', 'keys=probe', 'vals=probe', 'prop=C05', 'nkeys=11', 'nvals=1'),
       T('ladder-int', 'base', 'mode=ladder', 'keys=int', 'sizes=1,2,3,4,5,6,7,8,15,16,17,31,32,33,64,100,255,300,1000,4000,10000'),
       T('ladder-str', 'base', 'mode=ladder', 'keys=str', 'sizes=16,100,300,1000,4000,10000'),
       T('ladder-asan', 'asan', 'mode=ladder', 'keys=int', 'sizes=1,2,3,16,100,300,1000,4000'),
